@@ -94,6 +94,29 @@ func (in *Interp) feltSubMod(a, b *Term) *Term {
 	return st.Ite(st.Cmp(OpULt, a, b), st.Bin(OpAdd, d, P), d)
 }
 
+// reduceModP returns v mod P for a 256-bit term without a bit-blasted remainder: if the top five
+// bits are syntactically zero v is already canonical-or-close (v < 2^251 < P); otherwise a fresh
+// remainder r and a 5-bit quotient q are introduced with the defining axiom v = q*P + r, r < P.
+func (in *Interp) reduceModP(v *Term) *Term {
+	st := in.st
+	if v.IsConst() {
+		return st.ConstBig(256, new(big.Int).Mod(v.Big(), feltP))
+	}
+	if top := st.Extract(v, 255, 251); top.IsConst() && top.c == 0 {
+		return v
+	}
+	r := st.Var(fmt.Sprintf("$modP_r_%d", v.id), 256)
+	q := st.Var(fmt.Sprintf("$modP_q_%d", v.id), 8)
+	if _, ok := st.axioms[r.id]; !ok {
+		const w = 264
+		prod := st.Bin(OpAdd, st.Bin(OpMul, st.ZExt(q, w), st.ConstBig(w, feltP)), st.ZExt(r, w))
+		ax := st.BAnd(st.Eq(st.ZExt(v, w), prod),
+			st.BAnd(st.Cmp(OpULt, r, st.ConstBig(256, feltP)), st.Cmp(OpULt, q, st.Const(8, 32))))
+		st.axioms[r.id] = ax
+	}
+	return r
+}
+
 func (in *Interp) feltUF(name string, args ...*Term) *Term {
 	allConst := true
 	for _, a := range args {
@@ -334,8 +357,7 @@ func init() {
 		if len(bs) < 32 {
 			return v
 		}
-		P := st.ConstBig(256, feltP)
-		return st.Ite(st.Cmp(OpULt, v, P), v, st.Bin(OpURem, v, P))
+		return in.reduceModP(v)
 	}
 	reg(fpElem+"SetBytes", func(in *Interp, c *Frame, fn *ssa.Function, a []Value) Value {
 		return storeZ(in, a, setBytes(in, in.sliceBytes(a[1])))
